@@ -30,18 +30,21 @@ def lut_case(u, rep, parts, ddtype, timeout):
         P_ = symnp.array(parts, dtype='int32')
         f = u.part._define_lut_func(P_)
         N = core.sym_int('N', 1); W = core.sym_int('W', 1)
-        data = H.sym_ints('Y', (N, W), ddtype)
-        return data, f(data)
+        data = H.sym_ints('Y', (N, W), ddtype); out = f(data)
+        idx, cons = H.generic_index(data.shape)
+        for c_ in cons: core.assume(c_)
+        v = data.at(*idx); got = out.at(*idx) if out.ndim == 2 else None      # evaluated here: the element-wise function may branch on the value
+        return data, out, idx, v, got
     for p, outc, exc in core.explore(body):
         nm = 'post[lut %s on %s: index of the value, -1 if undeclared]' % (parts if len(parts) < 8 else 'range(%d)' % len(parts), ddtype)
         if exc is not None:
             rep.obligation(nm, fn, 'post', dict(result='sat', backend='exec', secs=0), sample=repr(exc)); rep.violation(nm, fn, 'raises %r' % (exc,), dict(kind='lut', parts=parts, ddtype=ddtype), None, *native(dict(kind='lut', parts=parts, ddtype=ddtype))); continue
-        data, out = outc
-        idx, cons = H.generic_index(data.shape); v = data.at(*idx); got = out.at(*idx)
+        data, out, idx, v, got = outc; cons = []
+        if got is None: got = core.bvval(-2, 'int32')
         vi = z3.BV2Int(v.z, is_signed=info.min < 0)
         exp = z3.IntVal(-1)
         for k, pv in enumerate(parts): exp = z3.If(vi == pv, z3.IntVal(k), exp)
-        inrange = z3.And(vi >= 0, vi < 2 ** 17)            # the table has 2**17 entries: precondition of the look-up (numba does not check bounds)
+        inrange = z3.And(vi > -(2 ** 17) + max(parts + [0]), vi < 2 ** 17)      # the table has 2**17 entries (numba does not check bounds; a negative index wraps once: A2); negative values are undeclared values like any other
         ok_meta = out.dtype == _rnp.dtype('int32') and len(out.shape) == 2
         res = solve.discharge(p.pc + cons + [inrange], z3.And(z3.BoolVal(ok_meta), z3.BV2Int(core.cast(got, 'int32').z, is_signed=True) == exp), timeout_ms=timeout)
         rep.obligation(nm, fn, 'post', res, sample='forall data values v in [0, 2^17): lut(v) == index of v in the class list else -1')
